@@ -448,6 +448,7 @@ func c08Alphabet() []hist.Op {
 		hist.Op{Kind: hist.Exec, H: 1, Form: 0, Arg: 0}, hist.Op{Kind: hist.Clone, H: 1, Dst: 2}, hist.Op{Kind: hist.Clone, H: 0, Dst: 2},
 		hist.Op{Kind: hist.Exec, H: 2, Form: 2, Name: "cb", Arg: 0}, hist.Op{Kind: hist.New, H: 0, Name: "bad", Dst: 3}, hist.Op{Kind: hist.Exec, H: 3, Form: 0, Arg: 0},
 		hist.Op{Kind: hist.Templates, H: 0}, hist.Op{Kind: hist.Defined, H: 0}, hist.Op{Kind: hist.Parse, H: 3, Arg: 0},
+		hist.Op{Kind: hist.ParseFS, H: 0, Arg: 1}, hist.Op{Kind: hist.ParseFS, H: 0, Arg: 2},
 	)
 	return ops
 }
@@ -490,14 +491,20 @@ func histRun(r *core.Run, clauses map[string]bool, scs []*hist.Scenario, alpha f
 	for _, sc := range scs {
 		sc := sc
 		before := st
-		exploreHist(r, sc, alpha(sc), depth, guarded, &st, func(f histFinding, ops []hist.Op) {
+		d := depth
+		if sc.Name == "fail-uncomputable-recursion-3-cycle" {
+			// every analysis of this set costs tens of milliseconds (the engine retries each member of the cycle
+			// in each context): one level less keeps the scenario within the budget of the tier
+			d = depth - 1
+		}
+		exploreHist(r, sc, alpha(sc), d, guarded, &st, func(f histFinding, ops []hist.Op) {
 			if !clauses[f.clause] {
 				return
 			}
 			in := renderOps(ops)
 			r.Witness(f.clause, sc.Name+" "+f.discr, in, f.detail, histReplay{sc.Name, append([]hist.Op{}, ops...)})
 		})
-		r.Set("scenario_"+sc.Name, fmt.Sprintf("%d ops, depth<=%d: histories=%d op-applications=%d", len(alpha(sc)), depth, st.states-before.states, st.transitions-before.transitions))
+		r.Set("scenario_"+sc.Name, fmt.Sprintf("%d ops, depth<=%d: histories=%d op-applications=%d", len(alpha(sc)), d, st.states-before.states, st.transitions-before.transitions))
 	}
 	if r.Expired() {
 		r.NotExhaustive("internal deadline reached before every scenario was explored to the depth bound")
